@@ -4,6 +4,7 @@
   write and the numbers stored in the log and in the tables after every program).
 -/
 import Kevo.Proofs.Engine
+import Kevo.Proofs.Retention
 namespace Kevo.Props.C08
 open Kevo Kevo.Engine Kevo.Spec Kevo.Proofs.Engine
 
@@ -23,5 +24,42 @@ theorem last_seq_monotone (cfg : Cfg) (hcfg : 0 < cfg.memTableSize) (ops : List 
 
 example : stamps (init { memTableSize := 30 }) [.put [1] [1], .batch [(false, [2], [2]), (true, [1], [])], .flush, .reopen, .del [3]]
     = [1, 2, 3] := by decide
+
+/-! ### log retention (pkg/wal/retention.go, driven by replica acknowledgements) and the counter
+
+  The counter is restored at start-up from the greatest number found in the log directory. `WAL.ManageRetention` deletes
+  closed log files; component `walret` compares the real function with `Kevo.Model.Retention` (files deleted, bytes left,
+  replay) and then restarts and writes again. -/
+
+/-- the sequence rule alone (count and age rules off) never deletes the file that holds the greatest number, as long as
+    `MinSequenceKeep` does not exceed it (an acknowledged number is a written number): the greatest number in the directory
+    — hence the counter restored by a restart — is the same before and after retention. This discharges, for this rule, the
+    hypothesis of the restart theorems that the newest non-empty log file has not been retired. -/
+theorem retention_keeps_max (cfg : Kevo.Retention.Cfg) (hc : cfg.maxFileCount = 0) (ha : cfg.maxAge = 0)
+    (files : List (List Nat)) (ages : List Nat)
+    (hM : cfg.minSeqKeep ≤ Kevo.Proofs.Retention.maxOf files.flatten) :
+    Kevo.Proofs.Retention.maxOf (Kevo.Retention.retainL cfg files ages).flatten =
+      Kevo.Proofs.Retention.maxOf files.flatten :=
+  Kevo.Proofs.Retention.retain_keeps_max cfg hc ha files ages hM
+
+/-- what the sequence rule deletes: only files with readable entries whose GREATEST number is below `MinSequenceKeep` -/
+theorem retention_seq_rule_only (cfg : Kevo.Retention.Cfg) (hc : cfg.maxFileCount = 0) (ha : cfg.maxAge = 0)
+    (infos : List Kevo.Retention.Info) (i : Nat) (x : Kevo.Retention.Info)
+    (h : Kevo.Retention.deleted cfg infos i x = true) : ∃ lo hi, x.bounds = some (lo, hi) ∧ hi < cfg.minSeqKeep :=
+  Kevo.Proofs.Retention.seq_rule_only cfg hc ha infos i x h
+
+/-- REPORTED (not repaired, outside the claimed envelope): the AGE rule — `Primary.maybeManageWALRetention` passes 24 h
+    together with the sequence rule — can delete the only file that holds the greatest number while the current file is
+    empty (right after a flush, more than a day without writes): after a restart the numbering starts at 1 again. -/
+theorem age_rule_can_lose_max_witness :
+    let cfg : Kevo.Retention.Cfg := { maxAge := 24, minSeqKeep := 5 }
+    Kevo.Retention.retainL cfg [[1, 2, 3, 4, 5], []] [25] = [[]] ∧
+    Kevo.Proofs.Retention.maxOf ([[1, 2, 3, 4, 5], []] : List (List Nat)).flatten = 5 ∧
+    Kevo.Proofs.Retention.maxOf (Kevo.Retention.retainL cfg [[1, 2, 3, 4, 5], []] [25]).flatten = 0 :=
+  Kevo.Proofs.Retention.age_rule_can_lose_max_witness
+
+/-- non-vacuity: the replica acknowledged 5 = the greatest number; the closed file survives although every number in it is
+    acknowledged -/
+example : Kevo.Retention.retainL { minSeqKeep := 5 } [[1, 2, 3, 4, 5], []] [1] = [[1, 2, 3, 4, 5], []] := by decide
 
 end Kevo.Props.C08
